@@ -1,0 +1,133 @@
+//go:build verif
+
+// Verification hooks (build tag "verif"). This file only adds code: a trace
+// sink, perturbation points and read-only accessors used by the external
+// runtime monitors under /verif. With the tag off verif_off.go provides empty
+// stubs and the package behaves exactly as upstream.
+package protocol
+
+import "sync/atomic"
+
+// VerifEvent is one trace record emitted by a Protocol instance.
+type VerifEvent struct {
+	Kind       string // enq, deq, seg, admit, release, trans, deliver, handled, error, stop
+	Proto      *Protocol
+	Name       string
+	ProtocolId uint16
+	Role       ProtocolRole
+	Msg        Message
+	MsgType    int
+	From       State
+	To         State
+	Len        int
+	Pending    int
+	Limit      int
+	Err        error
+}
+
+var (
+	verifSink  atomic.Pointer[func(VerifEvent)]
+	verifPoint atomic.Pointer[func(string, *Protocol)]
+)
+
+// VerifSetSink installs (or with nil removes) the trace sink.
+func VerifSetSink(f func(VerifEvent)) {
+	if f == nil {
+		verifSink.Store(nil)
+		return
+	}
+	verifSink.Store(&f)
+}
+
+// VerifSetPoint installs (or with nil removes) the perturbation callback.
+func VerifSetPoint(f func(string, *Protocol)) {
+	if f == nil {
+		verifPoint.Store(nil)
+		return
+	}
+	verifPoint.Store(&f)
+}
+
+func (p *Protocol) verifPt(name string) {
+	if f := verifPoint.Load(); f != nil {
+		(*f)(name, p)
+	}
+}
+
+func (p *Protocol) verifEv(
+	kind string,
+	msg Message,
+	from, to State,
+	ln, pending, limit int,
+	err error,
+) {
+	f := verifSink.Load()
+	if f == nil {
+		return
+	}
+	ev := VerifEvent{
+		Kind:       kind,
+		Proto:      p,
+		Name:       p.config.Name,
+		ProtocolId: p.config.ProtocolId,
+		Role:       p.config.Role,
+		Msg:        msg,
+		MsgType:    -1,
+		From:       from,
+		To:         to,
+		Len:        ln,
+		Pending:    pending,
+		Limit:      limit,
+		Err:        err,
+	}
+	if msg != nil {
+		ev.MsgType = int(msg.Type())
+	}
+	(*f)(ev)
+}
+
+func (p *Protocol) verifMsg(kind string, msg Message, ln int) {
+	if verifSink.Load() == nil {
+		return
+	}
+	p.verifEv(kind, msg, State{}, State{}, ln, 0, 0, nil)
+}
+
+func (p *Protocol) verifTrans(msg Message, next State, err error) {
+	if verifSink.Load() == nil {
+		return
+	}
+	p.verifEv("trans", msg, p.getCurrentState(), next, 0, 0, 0, err)
+}
+
+// verifAdmit must be called with pendingBytesMu held.
+func (p *Protocol) verifAdmit(kind string, st State, msgLen, limit int) {
+	if verifSink.Load() == nil {
+		return
+	}
+	p.verifEv(kind, nil, st, State{}, msgLen, p.pendingRecvBytes, limit, nil)
+}
+
+func (p *Protocol) verifErr(err error) {
+	if verifSink.Load() == nil {
+		return
+	}
+	p.verifEv("error", nil, p.getCurrentState(), State{}, 0, 0, 0, err)
+}
+
+// VerifConfig returns a copy of the protocol's configuration.
+func (p *Protocol) VerifConfig() ProtocolConfig {
+	return p.config
+}
+
+// VerifPendingRecv returns the pending receive byte count and queue length.
+func (p *Protocol) VerifPendingRecv() (int, int) {
+	p.pendingBytesMu.Lock()
+	defer p.pendingBytesMu.Unlock()
+	return p.pendingRecvBytes, len(p.pendingRecvSizes)
+}
+
+// VerifState returns the current protocol state.
+func (p *Protocol) VerifState() State {
+	return p.getCurrentState()
+}
